@@ -33,6 +33,7 @@ ASSUMPTIONS = ["ENU tracks, z = 0, strictly increasing unique timestamps 3 s apa
 N_VARIANTS = 4
 
 OBLIGATIONS = {
+    "second_call_in_a_row": "a simplification was judged right after another one in the same process",
     "closed_loop": "first and last positions coincide (n >= 3)",
     "consecutive_duplicate": "two consecutive fixes at the same position",
     "revisit": "a position visited again after leaving it",
@@ -170,7 +171,36 @@ def check_simplify(variant, ptsl, tol_l, algo, ctx, rep=None):
     ctx.outcome((algo, n, len(idx), rep))
 
 
+def check_after(variant, first, second, ctx):
+    """Two calls in a row in one process: simplify(A) (judged by its own case), then simplify(B), which is judged here.
+    first / second = (lattice points, tolerance in lattice units, algorithm).  Whatever the first call leaves behind in
+    the process (operator singletons, class attributes, module globals) must not reach the second."""
+    A, tolA, algoA = first
+    B, tolB, algoB = second
+    guard(simplify, _mk_track(variant, [tuple(p) for p in A]), tolA * alpha.scale(variant), MODES[algoA])
+    sub = Sub(ctx, {"op": "after", "variant": variant, "first": [[list(p) for p in A], tolA, algoA],
+                    "second": [[list(p) for p in B], tolB, algoB]})
+    check_simplify(variant, B, tolB, algoB, sub)
+    ctx.oblige("second_call_in_a_row")
+
+
+class Sub(object):
+    """ctx proxy: violations of the second call are filed under '<key>/after-another-call' with the two-call case."""
+
+    def __init__(self, ctx, case):
+        self._ctx, self._case = ctx, case
+
+    def violation(self, key, case, detail=None):
+        self._ctx.violation(key + "/after-another-call", self._case, detail)
+
+    def __getattr__(self, name):
+        return getattr(self._ctx, name)
+
+
 def replay(case, ctx):
+    if case.get("op") == "after":
+        f, g = case["first"], case["second"]
+        return check_after(case["variant"], (f[0], f[1], f[2]), (g[0], g[1], g[2]), ctx)
     check_simplify(case["variant"], case["pts"], case["tol"], case["algo"], ctx)
 
 
@@ -190,6 +220,9 @@ def _plan_variant(variant, deep):
     for p0 in L:
         for p1 in L:
             sh.append({"kind": "3x3", "variant": variant, "p0": list(p0), "p1": list(p1), "nmin": 2, "nmax": 5})
+    for p1 in L:
+        for p2 in L:
+            sh.append({"kind": "after", "variant": variant, "p1": list(p1), "p2": list(p2)})
     if deep:
         for p0 in L:
             for p1 in L:
@@ -211,8 +244,30 @@ def plan(tier, variant):
     return sh
 
 
+AFTER_TOLS = [0.01, 10.0]
+
+
 def run_shard(shard, ctx):
     v = shard["variant"]
+    if shard["kind"] == "after":
+        # first call: every 4-fix track (0,0) p1 p2 p3; second call: every 2-fix and 3-fix track starting at (0,0) with the
+        # same second vertex -- all tolerances of AFTER_TOLS and both algorithms on either side
+        L = _lat(3, 3, v)
+        o = L[0]
+        p1, p2 = tuple(shard["p1"]), tuple(shard["p2"])
+        seconds = [[o, p1]] + [[o, p1, q] for q in L]
+        algos = alpha.order(v, sorted(MODES))
+        for p3 in L:
+            A = [o, p1, p2, p3]
+            for tolA in AFTER_TOLS:
+                for algoA in algos:
+                    for B in seconds:
+                        for tolB in AFTER_TOLS:
+                            for algoB in algos:
+                                check_after(v, (A, tolA, algoA), (B, tolB, algoB), ctx)
+        ctx.sample({"first_call": {"track": [list(p) for p in [o, p1, p2, L[-1]]], "tolerance": AFTER_TOLS[0], "algorithm": algos[0]},
+                    "second_call": {"track": [list(o), list(p1)], "tolerance": AFTER_TOLS[1], "algorithm": algos[-1]}})
+        return
     wide = shard["kind"] == "4x3"
     L = _lat(4, 3, v) if wide else _lat(3, 3, v)
     p0, p1 = tuple(shard["p0"]), tuple(shard["p1"])
